@@ -1,6 +1,7 @@
 package sim
 
 import (
+	"strconv"
 	"bytes"
 	"encoding/hex"
 	"encoding/json"
@@ -139,6 +140,9 @@ func checkGoldenImage(t *testing.T, path string, seed uint64) (sig, detail strin
 		return "HARNESS", err.Error(), 0
 	}
 	cfg := img.Cfg
+	if strconv.IntSize == 32 && (cfg.KeyD == "int" || cfg.KeyD == "uint") {
+		return "", "", 0 // keys of the native width written on a 64-bit host do not fit this host's int
+	}
 	kd := NewKeyDialect(cfg.KeyD, cfg.U, nil)
 	vd := &ValDialect{cfg.ValD}
 	var root mast.Root
@@ -293,7 +297,7 @@ func layerVectors() (sig, detail string, n int) {
 				k    interface{}
 				want int
 			}
-			cases := []tc{{v, divLayerI(v, bf)}, {int(v), divLayerI(v, bf)}, {uint64(v), divLayerU(uint64(v), bf)}, {uint(v), divLayerU(uint64(v), bf)},
+			cases := []tc{{v, divLayerI(v, bf)}, {int(v), divLayerI(int64(int(v)), bf)}, {uint64(v), divLayerU(uint64(v), bf)}, {uint(v), divLayerU(uint64(uint(v)), bf)},
 				{int32(v), divLayerI(int64(int32(v)), bf)}, {int16(v), divLayerI(int64(int16(v)), bf)}, {int8(v), divLayerI(int64(int8(v)), bf)},
 				{uint32(v), divLayerU(uint64(uint32(v)), bf)}, {uint16(v), divLayerU(uint64(uint16(v)), bf)}, {uint8(v), divLayerU(uint64(uint8(v)), bf)}}
 			for _, c := range cases {
@@ -344,10 +348,21 @@ func layerVectors() (sig, detail string, n int) {
 			} else if a > b {
 				want = 1
 			}
-			for _, p := range [][2]interface{}{{a, b}, {int(a), int(b)}} {
+			// (the native int pair is compared as converted: on a 32-bit host the conversion truncates)
+			wantN := 0
+			if int(a) < int(b) {
+				wantN = -1
+			} else if int(a) > int(b) {
+				wantN = 1
+			}
+			for pi, p := range [][2]interface{}{{a, b}, {int(a), int(b)}} {
+				w := want
+				if pi == 1 {
+					w = wantN
+				}
 				got, err := cmp(p[0], p[1])
-				if err != nil || sgn(got) != want {
-					return fmt.Sprintf("C14/default-order-differs/%T", p[0]), fmt.Sprintf("DefaultKeyCompare(%v, %v) = %d (err %v), want sign %d", p[0], p[1], got, err, want), n
+				if err != nil || sgn(got) != w {
+					return fmt.Sprintf("C14/default-order-differs/%T", p[0]), fmt.Sprintf("DefaultKeyCompare(%v, %v) = %d (err %v), want sign %d", p[0], p[1], got, err, w), n
 				}
 			}
 			ua, ub := uint64(a), uint64(b)
@@ -439,6 +454,9 @@ func RunGoldenScenario(t *testing.T, sc *Scenario) *World {
 	if sig == "HARNESS" {
 		w.st.Truncated = "harness: " + detail
 	} else if sig != "" {
+		if os.Getenv("VERIF_HOST32") == "1" {
+			sig += "/on-32-bit-host"
+		}
 		w.viol = &Violation{Prop: "C14", Sig: sig, Detail: detail}
 	}
 	return w
@@ -454,6 +472,11 @@ func RunGoldenShard(t *testing.T, env *ShardEnv) *ShardReport {
 	sort.Strings(files)
 	nt := map[uint64]bool{}
 	seen := map[string]bool{}
+	// one shard of the C14 check is a GOARCH=386 build of this simulator (when the host can run
+	// it): it reads every frozen image and the vectors on a 32-bit "host"; the other shards then
+	// share the images among themselves
+	host32 := os.Getenv("VERIF_HOST32") == "1"
+	imgShards := envInt("VERIF_IMG_SHARDS", env.Shards)
 	report := func(sc *Scenario, sig, detail string) {
 		if sig == "" || seen[sig] {
 			return
@@ -463,6 +486,9 @@ func RunGoldenShard(t *testing.T, env *ShardEnv) *ShardReport {
 			rep.Truncated["harness"]++
 			rep.Note = "harness trouble: " + detail
 			return
+		}
+		if host32 {
+			sig += "/on-32-bit-host"
 		}
 		if k, ok := env.Known[sig]; ok {
 			rep.KnownHits[sig]++
@@ -480,8 +506,11 @@ func RunGoldenShard(t *testing.T, env *ShardEnv) *ShardReport {
 		rep.Truncated["harness"]++
 	}
 	for i, f := range files {
-		if i%env.Shards != env.Shard {
+		if !host32 && (env.Shard >= imgShards || i%imgShards != env.Shard) {
 			continue
+		}
+		if host32 {
+			rep.Probes["frozen-images-read-on-32-bit-host"]++
 		}
 		seed := mixSeed(env.Seed, uint64(i))
 		sig, detail, steps := checkGoldenImage(t, f, seed)
@@ -495,7 +524,7 @@ func RunGoldenShard(t *testing.T, env *ShardEnv) *ShardReport {
 		}
 		report(&Scenario{Property: "C14", Engine: "golden", Seed: seed, Ops: []Op{{K: "image", F: filepath.Base(f)}}}, sig, detail)
 	}
-	if env.Shard == 0 {
+	if env.Shard == 0 || host32 {
 		sig, detail, n := layerVectors()
 		rep.Evaluations++
 		rep.OracleEvals += n
@@ -506,7 +535,7 @@ func RunGoldenShard(t *testing.T, env *ShardEnv) *ShardReport {
 	shardSeed := mixSeed(env.Seed, strSeed(env.Prop), uint64(env.Shard))
 	unknown := 0
 	for i := 0; ; i++ {
-		if (env.MaxRuns > 0 && i >= env.MaxRuns) || time.Since(start) > env.Budget {
+		if host32 || (env.MaxRuns > 0 && i >= env.MaxRuns) || time.Since(start) > env.Budget {
 			break
 		}
 		seed := mixSeed(shardSeed, uint64(i))
